@@ -71,7 +71,7 @@ Proof.
   - unfold vals_below. intros k v H. rewrite get_upd_decl in H.
     destruct (get (s_decl s) k) eqn:E.
     + inversion H; subst. apply i_decl in E. lia.
-    + destruct (existsb _ (d_decl d)); inversion H. lia.
+    + destruct (existsb _ (d_reg d)); inversion H. lia.
 Qed.
 
 (* keys of history entries written for block n are p ++ [n] *)
@@ -272,16 +272,60 @@ Proof.
     + rewrite G1 by auto. auto.
 Qed.
 
-Lemma rm_decl_upd : forall n d m, NoDup (d_decl d) -> sorted m -> vals_below m n ->
-  rm_decl n (d_decl d) (upd_decl n d m) = Some m.
+(* ... and the classes registered for its deployed contracts *)
+Lemma rm_deliv_spec : forall n l m, sorted m ->
+  sorted (rm_deliv n l m) /\
+  forall k, get (rm_deliv n l m) k =
+    if existsb (fun h => keqb k [h]) l && (match get m k with Some a => a =? n | None => false end)
+    then None else get m k.
 Proof.
-  intros. destruct (rm_decl_spec n (d_decl d) (upd_decl n d m)) as [m' [R [S' G]]]; auto.
+  induction l; simpl; intros.
+  - split; auto.
+  - set (m1 := match get m [a] with Some a0 => if a0 =? n then del [a] m else m | None => m end).
+    assert (S1 : sorted m1).
+    { unfold m1. destruct (get m [a]); auto. destruct (n0 =? n); auto. apply sorted_del; auto. }
+    assert (G1 : forall k, keqb k [a] = false -> get m1 k = get m k).
+    { intros. unfold m1. destruct (get m [a]); auto. destruct (n0 =? n); auto. rewrite get_del by auto. rewrite H0. auto. }
+    destruct (IHl m1 S1) as [S' G]. split; auto. intros. rewrite G.
+    destruct (keqb k [a]) eqn:Ek; simpl.
+    + apply keqb_eq in Ek. subst. unfold m1. destruct (get m [a]) eqn:E.
+      * destruct (n0 =? n) eqn:En.
+        -- rewrite get_del by auto. rewrite keqb_refl. rewrite andb_false_r. auto.
+        -- rewrite E, En. rewrite andb_false_r. auto.
+      * rewrite E. rewrite andb_false_r. auto.
+    + rewrite G1 by auto. auto.
+Qed.
+
+Lemma existsb_keqb_in : forall l h, In h l -> existsb (fun h' => keqb [h] [h']) l = true.
+Proof. intros. apply existsb_exists. exists h. split; auto. apply keqb_refl. Qed.
+
+(* Revert's class part undoes Update's: every class the block registered (declared-at = n, so it did not exist
+   before) is declared by the block or is the class of one of its deployed contracts *)
+Lemma rm_classes_upd : forall n d m, NoDup (d_decl d) -> sorted m -> vals_below m n ->
+  (forall h, In h (d_deliv d) -> In h (map snd (d_deploy d))) ->
+  rm_classes n d (upd_decl n d m) = Some m.
+Proof.
+  intros n d m ND S VB DL. unfold rm_classes.
+  destruct (rm_decl_spec n (d_decl d) (upd_decl n d m)) as [m' [R [S' G]]]; auto.
   - apply sorted_upd_decl; auto.
   - intros. rewrite get_upd_decl. destruct (get m [h]); [discriminate|].
-    replace (existsb _ (d_decl d)) with true; [discriminate|]. symmetry. apply existsb_exists.
-    exists h. split; auto. apply keqb_refl.
-  - rewrite R. f_equal. apply sorted_ext; auto. intros. rewrite G. rewrite get_upd_decl.
-    destruct (get m k) eqn:E.
-    + apply H1 in E. destruct (n0 =? n) eqn:E1; [lia|]. rewrite andb_false_r. auto.
-    + destruct (existsb _ (d_decl d)); simpl; auto. rewrite N.eqb_refl. auto.
+    replace (existsb _ (d_reg d)) with true; [discriminate|]. symmetry. apply existsb_keqb_in.
+    unfold d_reg. apply in_or_app. auto.
+  - rewrite R. f_equal. destruct (rm_deliv_spec n (map snd (d_deploy d)) m' S') as [S2 G2].
+    apply sorted_ext; auto. intros k.
+    assert (Gm : get m' k = match get m k with
+                            | Some a => Some a
+                            | None => if existsb (fun h => keqb k [h]) (d_decl d) then None
+                                      else if existsb (fun h => keqb k [h]) (d_deliv d) then Some n else None
+                            end).
+    { rewrite G, get_upd_decl. unfold d_reg. rewrite existsb_app. destruct (get m k) eqn:E.
+      - apply VB in E. destruct (n0 =? n) eqn:E1; [lia|]. rewrite andb_false_r. auto.
+      - destruct (existsb _ (d_decl d)); simpl; [rewrite N.eqb_refl; auto|].
+        destruct (existsb _ (d_deliv d)); auto. }
+    rewrite G2, Gm. destruct (get m k) eqn:E.
+    + apply VB in E. destruct (n0 =? n) eqn:E1; [lia|]. rewrite andb_false_r. auto.
+    + destruct (existsb (fun h => keqb k [h]) (d_decl d)); [rewrite andb_false_r; auto|].
+      destruct (existsb (fun h => keqb k [h]) (d_deliv d)) eqn:E2; [|rewrite andb_false_r; auto].
+      apply existsb_exists in E2. destruct E2 as [h [Hin K]]. apply keqb_eq in K. subst.
+      rewrite (existsb_keqb_in _ _ (DL _ Hin)). rewrite N.eqb_refl. auto.
 Qed.
